@@ -80,7 +80,7 @@ def r1(ctx):
             ops = [pmap.get(o, o) for o in ops]
         no_moves = calls.get(IS_EMPTY, (None,))[0] is True
         in_check = calls.get(IN_CHECK, (None,))[0] is True
-        color = k2.assoc_enum_guard(P, g, "<P as chess_engine::Policy>::COLOR", COLOR_T)
+        color = k2.assoc_enum_guard(P, g, "<P as chess_engine::Policy>::COLOR", COLOR_T, key=f)
         payload_ok = ops == [depth_place]
         tag = vn if f == key else f"{vn} via {T.short(f)}"
         ctx.ob(f"{vn} guards", no_moves and in_check, f"Score::{tag} is returned under guards {[(T.short(c), v[0]) for c, v in calls.items()]}; a mate requires no legal move AND in check",
@@ -132,7 +132,10 @@ def r2(ctx):
     ab = P.find_fn("Engine::alphabeta", "chess_engine")
     callers = P.callers()
     helpers = {f for f in k2.private_closure(P, ab) if f != ab and "{closure" not in f and {c for c, _ in callers.get(f, [])} <= {ab}}
-    allowed = {ab, "chess_api::EvaluatedMove::score"} | helpers
+    # the ABI decoder (its table is C16.R3) and private helpers only it calls
+    dec = "chess_api::EvaluatedMove::score"
+    dec_helpers = {f for f in k2.private_closure(P, dec) if f != dec and "{closure" not in f and {c for c, _ in callers.get(f, [])} <= {dec}}
+    allowed = {ab, dec} | helpers | dec_helpers
     bad = {}
     for k, sites in cons.items():
         mate = [s for s in sites if s[1] in ("BlackMateIn", "WhiteMateIn")]
